@@ -1,1 +1,157 @@
-//! Reference search: plain minimax, no pruning, no ordering.
+//! Reference search: plain minimax, no pruning, no ordering, no cache shared with the engine.
+//!
+//! The tree is walked with the *reference rules* (oracle::Pos). Interior positions without a legal
+//! move are scored by the rules (checkmated = Loss, stalemate = 0). Leaves (remaining depth 0) are
+//! scored by the engine's own quiescence search on a full window — property C05 defines the
+//! reference that way ("leaves scored by the engine's own quiescence evaluation"). Values live in
+//! three classes Loss < Num(x) < Win; numbers at or beyond the search window are Win/Loss, which is
+//! C05's "forced mates are compared as won/lost".
+use crate::board::Board;
+use crate::oracle::{Mv, Pos, PosKey};
+use crate::report::engine_call;
+use crate::search::Searcher;
+use std::collections::HashMap;
+
+#[derive(Clone, Copy, PartialEq, Eq, PartialOrd, Ord, Debug, Hash)]
+pub enum Val {
+    Loss,
+    Num(i32),
+    Win,
+}
+
+impl Val {
+    pub fn neg(self) -> Val {
+        match self {
+            Val::Loss => Val::Win,
+            Val::Win => Val::Loss,
+            Val::Num(x) => Val::Num(-x),
+        }
+    }
+    pub fn show(self) -> String {
+        match self {
+            Val::Loss => "LOSS".into(),
+            Val::Win => "WIN".into(),
+            Val::Num(x) => x.to_string(),
+        }
+    }
+}
+
+/// The engine's window is (-32767, 32767); anything at or beyond it is a forced mate.
+pub fn class(score: i32) -> Val {
+    let (lo, hi) = Searcher::verif_window();
+    if score <= lo {
+        Val::Loss
+    } else if score >= hi {
+        Val::Win
+    } else {
+        Val::Num(score)
+    }
+}
+
+#[derive(Debug)]
+pub enum Skip {
+    /// the reference tree has more leaves than the budget allows
+    TooManyLeaves,
+    /// one quiescence search exceeded its node budget (treated as "not finite" for this run)
+    QuiescenceTooBig,
+}
+
+pub struct RefSearch {
+    /// a private engine instance used *only* for its quiescence search (never the one under test)
+    q: Searcher,
+    memo: HashMap<(PosKey, u8), Val>,
+    qmemo: HashMap<PosKey, Val>,
+    pub leaves: u64,
+    pub leaf_budget: u64,
+    pub q_node_budget: u64,
+    pub max_q_nodes: u64,
+    /// quiescence nodes spent since the last reset, and the budget for them (bounds the time of one reference computation)
+    pub q_nodes_total: u64,
+    pub q_total_budget: u64,
+}
+
+impl RefSearch {
+    pub fn new(leaf_budget: u64, q_node_budget: u64) -> RefSearch {
+        RefSearch { q: Searcher::new(), memo: HashMap::new(), qmemo: HashMap::new(), leaves: 0, leaf_budget, q_node_budget, max_q_nodes: 0, q_nodes_total: 0, q_total_budget: leaf_budget.saturating_mul(25) }
+    }
+
+    pub fn reset(&mut self) {
+        self.memo.clear();
+        self.qmemo.clear();
+        self.leaves = 0;
+        self.q_nodes_total = 0;
+    }
+
+    /// Full-window quiescence value of `p` by the engine's own quiescence search.
+    pub fn leaf(&mut self, p: &Pos) -> Result<Val, Skip> {
+        let k = p.key();
+        if let Some(v) = self.qmemo.get(&k) {
+            return Ok(*v);
+        }
+        self.leaves += 1;
+        if self.leaves > self.leaf_budget || self.q_nodes_total > self.q_total_budget {
+            return Err(Skip::TooManyLeaves);
+        }
+        let b = Board::new(&p.to_fen());
+        let (lo, hi) = Searcher::verif_window();
+        let before = self.q.verif_nodes();
+        self.q.verif_timer().hard_cap = Some(before + self.q_node_budget);
+        let r = {
+            let q = &mut self.q;
+            engine_call(|| q.verif_quiesce(&b, lo, hi))
+        };
+        match r {
+            Ok(s) => {
+                let used = self.q.verif_nodes() - before;
+                self.q_nodes_total += used;
+                if used > self.max_q_nodes {
+                    self.max_q_nodes = used;
+                }
+                let v = class(s);
+                self.qmemo.insert(k, v);
+                Ok(v)
+            }
+            Err(_) => {
+                // the cap fired (or the engine panicked for another reason, which the monitor that
+                // drives the engine under test will see for itself): start from a clean instance
+                self.q = Searcher::new();
+                Err(Skip::QuiescenceTooBig)
+            }
+        }
+    }
+
+    /// Minimax value of `p` with `depth` plies of full-width search above the quiescence leaves.
+    pub fn value(&mut self, p: &Pos, depth: u8) -> Result<Val, Skip> {
+        if depth == 0 {
+            return self.leaf(p);
+        }
+        let k = (p.key(), depth);
+        if let Some(v) = self.memo.get(&k) {
+            return Ok(*v);
+        }
+        let legal = p.legal_moves();
+        let v = if legal.is_empty() {
+            if p.in_check() {
+                Val::Loss
+            } else {
+                Val::Num(0)
+            }
+        } else {
+            let mut best = Val::Loss;
+            for m in legal.iter() {
+                let c = self.value(&p.make(m), depth - 1)?.neg();
+                if c > best {
+                    best = c;
+                }
+            }
+            best
+        };
+        self.memo.insert(k, v);
+        Ok(v)
+    }
+
+    /// Value of playing `m` in `p` when `depth` plies remain at `p`.
+    pub fn move_value(&mut self, p: &Pos, m: &Mv, depth: u8) -> Result<Val, Skip> {
+        Ok(self.value(&p.make(m), depth - 1)?.neg())
+    }
+}
